@@ -72,6 +72,38 @@ SHAPES = {
     "define-global-eval": ("(define (loop n) (eval `(define h ,n)) (loop (+ n 1))) (c17-mark!) (loop 0)", {"rounds"}),
     "callcc-global-generator": ("(define k #f) (define n 0) (c17-mark!) (begin (call/cc (lambda (c) (set! k c))) (set! n (+ n 1)) (k 0))", {"rounds"}),
     "alloc-live-boxes": ("(define keep (make-vector 30000 0)) (define (loop n) (vector-set! keep (modulo n 30000) (box n)) (loop (+ n 1))) (c17-mark!) (loop 0)", {"rounds"}),
+    # the looping procedure is defined in an EARLIER evaluation than the call (not inlined) and is reached by non-tail calls
+    # from compiled callers: the JIT's helpers call compiled callees directly ("trampoline"); the callee's return to the
+    # dispatch loop on every self tail call is then the only poll
+    "earlier-spin-d1": ("(define (spin x) (spin x)) (define (driver x) (spin x) 1) ;;;UNIT;;; (c17-mark!) (driver 0)", {"units"}),
+    "earlier-spin-d2": ("(define (spin x) (spin x)) (define (d1 x) (spin x) 1) (define (d2 x) (+ 1 (d1 x))) ;;;UNIT;;; (c17-mark!) (d2 0)", {"units"}),
+    "earlier-spin-d3": ("(define (spin x) (spin x)) (define (d1 x) (spin x) 1) (define (d2 x) (+ 1 (d1 x))) (define (d3 x y) (list y (d2 x))) ;;;UNIT;;; (c17-mark!) (d3 0 7)", {"units"}),
+    "earlier-count-d1": ("(define (spin n) (if (< n 0) n (spin (+ n 1)))) (define (driver x) (+ (spin x) 1)) ;;;UNIT;;; (c17-mark!) (driver 0)", {"units"}),
+    "earlier-spin2-d2": ("(define (spin a b) (spin b a)) (define (d1 x) (car (list (spin x 1)))) (define (d2 x) (if (d1 x) 1 2)) ;;;UNIT;;; (c17-mark!) (d2 0)", {"units"}),
+    "earlier-units-3": ("(define (spin x) (spin x)) ;;;UNIT;;; (define (driver x) (spin x) 1) ;;;UNIT;;; (c17-mark!) (driver 0)", {"units"}),
+    "earlier-spin-in-map": ("(define (spin x) (spin x)) (define (driver x) (spin x) 1) ;;;UNIT;;; (c17-mark!) (map driver (list 1 2))", {"units"}),
+    "earlier-spin-in-transduce": ("(define (spin x) (spin x)) (define (driver x) (spin x) 1) ;;;UNIT;;; (c17-mark!) (transduce (list 1 2) (mapping driver) (into-list))", {"units"}),
+    "module-spin-from-compiled": ("(require \"%s/m.scm\") (define (driver x) (+ 1 (spin x))) ;;;UNIT;;; (c17-mark!) (driver 0)" % MODS, {"units", "modloop"}),
+    # callbacks of native iteration constructs over unbounded or long sources: the error raised by the poll inside a callback
+    # has to come out of every stage of the pipeline (`long`: the source is finite but cannot be exhausted before the request)
+    "stream-filter-closure": ("(define ones (stream-cons 1 (lambda () ones))) (define (wanted? x) #f) ;;;UNIT;;; (c17-mark!) (transduce ones (filtering wanted?) (taking 1) (into-list))", {"hof"}),
+    "stream-map-filter": ("(define ones (stream-cons 1 (lambda () ones))) ;;;UNIT;;; (c17-mark!) (transduce ones (mapping (lambda (x) (+ x 1))) (filtering (lambda (x) (< x 0))) (taking 1) (into-list))", {"hof"}),
+    "stream-flatmap-filter": ("(define ones (stream-cons 1 (lambda () ones))) ;;;UNIT;;; (c17-mark!) (transduce ones (flat-mapping (lambda (x) (list x x))) (filtering (lambda (x) #f)) (taking 1) (into-list))", {"hof"}),
+    "stream-enumerate-filter": ("(define ones (stream-cons 1 (lambda () ones))) ;;;UNIT;;; (c17-mark!) (transduce ones (enumerating) (filtering (lambda (p) #f)) (taking 1) (into-list))", {"hof"}),
+    "stream-for-each-reducer": ("(define ones (stream-cons 1 (lambda () ones))) ;;;UNIT;;; (c17-mark!) (transduce ones (into-for-each (lambda (x) x)))", {"hof"}),
+    "stream-generic-reducer": ("(define ones (stream-cons 1 (lambda () ones))) ;;;UNIT;;; (c17-mark!) (transduce ones (into-reducer (lambda (acc x) (+ acc x)) 0))", {"hof", "streamtail"}),
+    "long-list-filter": ("(define big (range 0 600000)) ;;;UNIT;;; (c17-mark!) (transduce big (filtering (lambda (x) #f)) (into-list))", {"hof", "long"}),
+    "long-list-map-filter-take": ("(define big (range 0 600000)) ;;;UNIT;;; (c17-mark!) (transduce big (mapping (lambda (x) (* x 2))) (filtering (lambda (x) (< x 0))) (taking 3) (into-list))", {"hof", "long"}),
+    "long-list-flatten-filter": ("(define big (range 0 200000)) ;;;UNIT;;; (c17-mark!) (transduce (list big big big) (flattening) (filtering (lambda (x) #f)) (into-count))", {"hof", "long"}),
+    "long-list-for-each-reducer": ("(define big (range 0 600000)) ;;;UNIT;;; (c17-mark!) (transduce big (into-for-each (lambda (x) x)))", {"hof", "long"}),
+    "long-list-zip-filter": ("(define big (range 0 600000)) ;;;UNIT;;; (c17-mark!) (transduce big (zipping big) (filtering (lambda (p) #f)) (into-count))", {"hof", "long"}),
+    "long-hash-filter": ("(define h (transduce (range 0 150000) (mapping (lambda (x) (cons x x))) (into-hashmap))) ;;;UNIT;;; (c17-mark!) (transduce h (filtering (lambda (p) #f)) (into-count))", {"hof", "long"}),
+    "long-vector-filter": ("(define v (list->vector (range 0 600000))) ;;;UNIT;;; (c17-mark!) (transduce v (filtering (lambda (x) #f)) (into-vector))", {"hof", "long"}),
+    "long-sort-comparator": ("(define big (reverse (range 0 300000))) ;;;UNIT;;; (c17-mark!) (length (sort big (lambda (a b) (< a b))))", {"hof", "long"}),
+    "long-for-each-range": ("(define big (range 0 3000000)) ;;;UNIT;;; (c17-mark!) (for-each (lambda (x) x) big)", {"hof", "long"}),
+    # the only Steel code of the pipeline is the tail thunk of the stream (LazyStreamIter::next drops its error)
+    "stream-tail-prim-filter": ("(define ones (stream-cons 1 (lambda () ones))) ;;;UNIT;;; (c17-mark!) (transduce ones (filtering even?) (taking 1) (into-list))", {"hof", "streamtail"}),
+    "stream-tail-taking-count": ("(define ones (stream-cons 1 (lambda () ones))) ;;;UNIT;;; (c17-mark!) (transduce ones (taking 2000000000) (into-count))", {"hof", "streamtail"}),
     # self tail call of a module-level function
     "module-self-tail": ("(require \"%s/m.scm\") (c17-mark!) (spin 0)" % MODS, {"modloop"}),
     "module-self-tail-cons": ("(require \"%s/m.scm\") (c17-mark!) (spin2 0 0)" % MODS, {"modloop"}),
@@ -79,7 +111,12 @@ SHAPES = {
 QUICK_SHAPES = ["self-tail", "named-let", "internal-define", "mutual-tail", "nontail-rec", "fib-native", "map-cb-loop",
                 "foldl-forever", "transduce-cb-loop", "handler-each-iter", "handler-swallow", "wind-each-iter",
                 "callcc-local-generator", "alloc-box", "alloc-list", "set-global", "alloc-live-boxes",
-                "module-self-tail"]
+                "module-self-tail",
+                "earlier-spin-d1", "earlier-spin-d2", "earlier-spin-d3", "earlier-count-d1", "earlier-spin2-d2",
+                "earlier-spin-in-map", "module-spin-from-compiled",
+                "stream-filter-closure", "stream-map-filter", "stream-flatmap-filter", "stream-for-each-reducer",
+                "stream-generic-reducer", "long-list-filter", "long-list-map-filter-take", "long-list-flatten-filter",
+                "long-hash-filter", "long-vector-filter", "long-sort-comparator", "stream-tail-prim-filter"]
 
 
 _SEEN = set()
@@ -140,6 +177,14 @@ def classify(ctx, name, tags, jit, kv, known, stats, replay_line):
         except ValueError:
             pass
         return
+    if oc.startswith("finished") and "long" in tags and int(kv.get("requests", "0") or 0) >= 1:
+        # the source could not be exhausted before the request: the evaluation went on after it and returned a value,
+        # i.e. the interrupt error raised inside a callback was swallowed by the iteration construct
+        stats["viol"] += 1
+        ctx.violation("C17-%s-jit%s.txt" % (name, jit),
+                      "# C17 violation: the evaluation returned a VALUE after the interrupt request (the error raised inside a callback of a "
+                      "native iteration construct did not come out of it)\n# observed: %s\n# jit=%s\n%s" % (kv.get("raw"), jit, replay_line))
+        return
     if oc.startswith("finished") or oc.startswith("error:"):
         stats["not_looping"].append((name, jit, oc))
         return
@@ -156,6 +201,11 @@ def classify(ctx, name, tags, jit, kv, known, stats, replay_line):
         stats["k17a"] += 1
         kf(ctx, "K17a", "id=K17a class=interrupt_request_overlaps_own_stop_round replay=%s (shape %s, jit=%s: %s requests=%s)"
                           % (known["K17a"]["replay"], name, jit, oc, kv.get("requests")))
+        return
+    if oc == "hang" and "streamtail" in tags and "K17d" in known:
+        stats["k17d"] += 1
+        kf(ctx, "K17d", "id=K17d class=error_of_stream_tail_thunk_dropped replay=%s (shape %s, jit=%s: no request of %s got through)"
+           % (known["K17d"]["replay"], name, jit, kv.get("requests")))
         return
     if oc == "hang" and "modloop" in tags and jit == "true" and "K17b" in known:
         stats["k17b"] += 1
@@ -226,7 +276,7 @@ def model_corpus(ctx, stats):
 def run(ctx):
     _SEEN.clear()
     rnd = random.Random(ctx.seed * 7919 + 17)
-    stats = {"cases": 0, "pass": 0, "viol": 0, "k17a": 0, "k17b": 0, "k17c": 0, "k17c_forced": 0, "starved": 0, "lat": [],
+    stats = {"cases": 0, "pass": 0, "viol": 0, "k17a": 0, "k17b": 0, "k17d": 0, "k17c": 0, "k17c_forced": 0, "starved": 0, "lat": [],
              "not_looping": [], "forced": 0,
              "forced_delivered": 0, "k17a_forced": 0, "forced_unsched": [], "model_cases": 0}
     known = {k["id"]: k for k in ctx.load_known()}
@@ -246,7 +296,7 @@ def run(ctx):
     fres = forced(ctx, known, stats)
 
     shapes = QUICK_SHAPES if ctx.quick() else list(SHAPES)
-    npos = 6 if ctx.quick() else 40
+    npos = 4 if ctx.quick() else 40
     bound = 400      # ms of CPU time of the evaluation thread (wall-clock cap 12x)
     jobs = []
     for name in shapes:
@@ -311,7 +361,7 @@ def run(ctx):
         "delivered_after_one_request": stats["pass"],
         "latency_us_median": lat[len(lat) // 2] if lat else None, "latency_us_max": lat[-1] if lat else None,
         "known_K17a_cases": stats["k17a"], "known_K17a_forced": stats["k17a_forced"], "known_K17b_cases": stats["k17b"],
-        "known_K17c_cases": stats["k17c"], "known_K17c_forced": stats["k17c_forced"],
+        "known_K17c_cases": stats["k17c"], "known_K17c_forced": stats["k17c_forced"], "known_K17d_cases": stats["k17d"],
         "cases_without_verdict_because_the_thread_was_starved": stats["starved"],
         "forced_schedules": stats["forced"], "forced_delivered": stats["forced_delivered"],
         "forced_not_schedulable": stats["forced_unsched"], "forced_results": [(a, b, c) for a, b, c, _ in fres],
